@@ -98,6 +98,7 @@ MUTATORS = {
         ("right message not transposed (d2bp)", r"quimb/tensor/belief_propagation/d2bp\.py$", r"^(\s+)mr_raw = self\.messages\[ix, tida\]\.T\s*$", r"\1mr_raw = self.messages[ix, tida]"),
         ("right message not transposed (l2bp)", r"quimb/tensor/belief_propagation/l2bp\.py$", r"^(\s+)mr = ar\.reshape\(tmr\.data, \(dm, dm\)\)\.T\s*$", r"\1mr = ar.reshape(tmr.data, (dm, dm))"),
         ("left message transposed", r"quimb/tensor/belief_propagation/d2bp\.py$", r"^(\s+)ml_raw = self\.messages\[ix, tidb\]\s*$", r"\1ml_raw = self.messages[ix, tidb].T"),
+        ("batched route forgets exponent", r"quimb/tensor/belief_propagation/hv1bp\.py$", r"^(\s+)exponent = self\.exponent\s*$", r"\1exponent = 0.0"),
         ("bp constructor aliases tn", r"quimb/tensor/belief_propagation/bp_common\.py$", r"^(\s+)self\.tn = tn if inplace else tn\.copy\(\)\s*$", r"\1self.tn = tn"),
     ],
     "C16": [
